@@ -17,7 +17,9 @@ Import-free (core Lean + the graph IR and planner model), executable.
 * `Graph::run_plan` (graph.rs:880) reduced to what determines *which value each operator reads
   and which value is returned*: owned inputs start in `temp_values`, borrowed inputs (views)
   are found through `inputs_by_id`; value lookup is constant → borrowed input → `temp_values`
-  (→ panic); operator outputs are inserted into `temp_values` (later insertions overwrite);
+  (→ panic); operator outputs are inserted into `temp_values` (later insertions overwrite)
+  unless their id was supplied by the caller (commit "fix: run_plan: values supplied as inputs
+  take precedence over operator outputs with the same id");
   an operator error / a short output list ends the run; requested outputs are collected in
   order by constant → borrowed input → `temp_values.remove` (→ panic "missing output value").
   Operators are abstract: `sem ω id args` is the result of running operator `id` on the values
@@ -159,9 +161,10 @@ def zipOuts : List (Option Nat) → List V → List (Nat × V)
   | none :: os, _ :: vs => zipOuts os vs
   | _, _ => []
 
-/-- One iteration of the executor loop: the new `temp_values`. -/
-def stepOp (g : Graph) (sem : Sem Ω V) (ω : Ω) (cv : Nat → V) (views temps : List (Nat × V))
-    (id : Nat) : Except RunErr (List (Nat × V)) :=
+/-- One iteration of the executor loop: the new `temp_values`.  `supplied` = ids of all values
+passed by the caller (`supplied_ids`): an operator output with such an id is not stored. -/
+def stepOp (g : Graph) (sem : Sem Ω V) (ω : Ω) (cv : Nat → V) (supplied : List Nat)
+    (views temps : List (Nat × V)) (id : Nat) : Except RunErr (List (Nat × V)) :=
   match getOp g id with
   | none => .error .opNotFound
   | some op =>
@@ -172,15 +175,15 @@ def stepOp (g : Graph) (sem : Sem Ω V) (ω : Ω) (cv : Nat → V) (views temps 
       | none => .error .opError
       | some outs =>
         if outs.length < op.outputs.length then .error .outputMismatch
-        else .ok ((zipOuts op.outputs outs).reverse ++ temps)
+        else .ok ((zipOuts op.outputs outs).reverse.filter (fun p => !supplied.contains p.1) ++ temps)
 
 /-- The executor loop. -/
-def execPlan (g : Graph) (sem : Sem Ω V) (ω : Ω) (cv : Nat → V) (views : List (Nat × V)) :
-    List Nat → List (Nat × V) → Except RunErr (List (Nat × V))
+def execPlan (g : Graph) (sem : Sem Ω V) (ω : Ω) (cv : Nat → V) (supplied : List Nat)
+    (views : List (Nat × V)) : List Nat → List (Nat × V) → Except RunErr (List (Nat × V))
   | [], temps => .ok temps
   | id :: rest, temps =>
-    match stepOp g sem ω cv views temps id with
-    | .ok temps' => execPlan g sem ω cv views rest temps'
+    match stepOp g sem ω cv supplied views temps id with
+    | .ok temps' => execPlan g sem ω cv supplied views rest temps'
     | .error e => .error e
 
 /-- "Return the requested outputs". -/
@@ -209,10 +212,11 @@ def collect (g : Graph) (cv : Nat → V) (views : List (Nat × V)) :
     | _ => .error .panic
 
 /-- `Graph::run_plan`. `views`: inputs passed as `ValueOrView::View`; `owned`: inputs passed
-as `ValueOrView::Value` (moved into `temp_values` first). -/
+as `ValueOrView::Value` (moved into `temp_values` first, unless supplied for a constant node). -/
 def runPlan (g : Graph) (sem : Sem Ω V) (ω : Ω) (cv : Nat → V) (views owned : List (Nat × V))
     (plan outs : List Nat) : Except RunErr (List V) :=
-  match execPlan g sem ω cv views plan owned with
+  match execPlan g sem ω cv ((views ++ owned).map (fun p => p.1)) views plan
+      (owned.filter (fun p => !isConstant g p.1)) with
   | .ok temps => collect g cv views outs temps
   | .error e => .error e
 
